@@ -45,11 +45,16 @@ def _unary(name, nonzero=False):
 def _cyclic_build(cfg):
     from transactron.utils.amaranth_ext.functions import cyclic_mask
     b = cfg["bits"]
-    return _wrap(lambda s, e: cyclic_mask(b, s, e), [range(b), range(b)])
+    # index operands: range(bits), or explicitly narrower signals of sw / ew bits (values that fit are legal indices)
+    return _wrap(lambda s, e: cyclic_mask(b, s, e), [cfg.get("sw") or range(b), cfg.get("ew") or range(b)])
 
 
 def _cyclic_cfgs(tier):
-    return [{"bits": b} for b in (range(1, 13) if tier == "thorough" else range(1, 10))]
+    res = [{"bits": b} for b in (range(1, 13) if tier == "thorough" else range(1, 10))]
+    for b in ((5, 6, 9, 12, 17) if tier == "thorough" else (5, 6, 9)):
+        for sw, ew in ((1, 1), (1, 2), (2, 1), (2, 3)):
+            res.append({"bits": b, "sw": sw, "ew": ew})
+    return res
 
 
 # ---- mod_incr / mod_add ----------------------------------------------------------------------------
@@ -245,7 +250,8 @@ for _n in ("popcount", "count_leading_zeros", "count_trailing_zeros", "extract_l
 for _n in ("mask_after_first_set_bit", "mask_until_first_set_bit"):
     FAMILIES[_n] = _unary(_n, nonzero=True)
 FAMILIES["cyclic_mask"] = Family("cyclic_mask", cfgs=_cyclic_cfgs, build=_cyclic_build, on_raise=RAISED,
-                                 domain=lambda cfg: ([s, e] for s in range(cfg["bits"]) for e in range(cfg["bits"])))
+                                 domain=lambda cfg: ([s, e] for s in range(min(cfg["bits"], 1 << cfg["sw"]) if cfg.get("sw") else cfg["bits"])
+                                                    for e in range(min(cfg["bits"], 1 << cfg["ew"]) if cfg.get("ew") else cfg["bits"])))
 FAMILIES["mod_incr"] = Family("mod_incr", cfgs=_mod_incr_cfgs, build=_mod_incr_build, on_raise=RAISED,
                               domain=lambda cfg: ([s] for s in range(cfg["mod"])))
 FAMILIES["mod_add"] = Family("mod_add", cfgs=_mod_add_cfgs, build=_mod_add_build, on_raise=RAISED,
